@@ -285,9 +285,13 @@ func c09Expect(t reflect.Type, pre []int, sources []map[string][]string, srcIdx 
 				use = vals[:1]
 			}
 			if c09KindCode(nk) != 0 {
-				for _, v := range use {
+				use = append([]string(nil), use...)
+				for j, v := range use {
 					if !c09Fits(nk, v) {
 						*bad = true
+					}
+					if v == "" {
+						use[j] = "0" // an empty text stands for the zero value of a number
 					}
 				}
 			}
@@ -314,6 +318,10 @@ func genC09(rng *rand.Rand, n int, emit func(Case), dist map[string]int) {
 		var out []string
 		for i := 0; i < k; i++ {
 			lk := strings.ToLower(key)
+			if rng.Intn(14) == 0 {
+				out = append(out, "") // the key is there, its value is empty (`?id=`): for a number that is its zero value
+				continue
+			}
 			if lk == "age" || lk == "x-age" || lk == "port" || lk == "delta" || lk == "ages" {
 				out = append(out, []string{"0", "7", "127", "128", "255", "256", "300", "-1", "-128", "-129", "65535", "65536", "70000", "4294967296", "x", "1x"}[rng.Intn(16)])
 			} else if lk == "id" || lk == "zip" || lk == "level" || lk == "nums" || lk == "count" || lk == "pid" || lk == "x-pid" || lk == "x-count" {
@@ -509,7 +517,54 @@ func genC09(rng *rand.Rand, n int, emit func(Case), dist map[string]int) {
 		c09Preset(reflect.ValueOf(dst).Elem())
 		method := []string{"GET", "POST", "PUT", "DELETE", "HEAD", "OPTIONS", "REPORT", "GET", "POST"}[rng.Intn(9)]
 		params, query, form := genData(), genData(), genData()
+		if rng.Intn(3) == 0 {
+			// the same keys again in a later source, with other values and ANOTHER NUMBER of them (possibly empty ones): the later
+			// source decides the field on its own - nothing of what an earlier source wrote may remain
+			overlay := func(dst, src map[string][]string) {
+				have := map[string]bool{}
+				for k := range dst {
+					have[strings.ToLower(k)] = true
+				}
+				for _, k := range keysOf(src) {
+					if rng.Intn(3) != 0 && (!have[strings.ToLower(k)] || dst[k] != nil) {
+						dst[k] = vals(k, 1+rng.Intn(4))
+						if rng.Intn(3) == 0 {
+							src[k] = vals(k, 2+rng.Intn(3))
+						}
+					}
+				}
+			}
+			overlay(query, params)
+			overlay(form, query)
+			overlay(form, params)
+			dist["sources_sharing_keys"]++
+		}
+		forceMultipart := false
+		if rng.Intn(12) == 0 {
+			// a slice field filled from the query string with several values and then from a multipart body with FEWER (the URL
+			// query is not merged into multipart values): the body's values are the field, nothing of the query's may remain
+			method = []string{"GET", "DELETE", "HEAD"}[rng.Intn(3)]
+			for _, k := range []string{"tags", "nums", "ages", "list", "ptags"} {
+				if rng.Intn(2) == 0 {
+					for _, d := range []map[string][]string{query, form} {
+						for key := range d {
+							if strings.EqualFold(key, k) {
+								delete(d, key)
+							}
+						}
+					}
+					nq := 2 + rng.Intn(3)
+					query[k] = vals(k, nq)
+					form[k] = vals(k, 1+rng.Intn(nq-1))
+				}
+			}
+			forceMultipart = true
+			dist["query_then_shorter_multipart_slice"]++
+		}
 		bodyKind := rng.Intn(11) // 0,1 none; 2,3 form; 4 malformed form; 5 unsupported; 6 form; 7 JSON; 8 JSON with an error; 9 XML; 10 multipart form
+		if forceMultipart {
+			bodyKind = 10
+		}
 		if rng.Intn(10) == 0 {
 			// ---------------- BindHeaders: the header source on its own
 			hdrs := genData()
